@@ -293,6 +293,11 @@ def run_matrix(case, ctx):
         dr_min = min(dr_min, n - r)
         dr_max = max(dr_min, dr_max) if dr_max is not None else None
     e2 = float(rng.choice([1.01, 1.1, 1.5, 2.]))
+    if rng.random() < 0.08:
+        # "never add rows beyond dr_min": any accuracy e >= 1.01 is valid,
+        # also one whose square is not a double
+        e2 = [1e155, 1e200, 1.7976931348623157e308][int(rng.integers(3))]
+        ctx.event('rect-huge-accuracy')
     I2, B2 = teneva.maxvol_rect(A, e2, dr_min, dr_max, e, k)
     # _maxvol clips dr_min / dr_max to what the matrix allows (as TT-cross
     # relies on for small cores): raw, unclipped values here
